@@ -1,6 +1,7 @@
 package main
 
 import (
+	"sync"
 	"context"
 	"go/types"
 	"encoding/json"
@@ -797,10 +798,14 @@ func tryReplay(root, id string, v violation, path string) bool {
 }
 
 var replayCache = map[string][2]interface{}{}
+var replayMu sync.Mutex
 
 func runReplayHarness(root, id string, cfg replayCfg, witness string) ([]string, string) {
 	key := cfg.Dir + "|" + cfg.Direction + "|" + witness
-	if c, ok := replayCache[key]; ok {
+	replayMu.Lock()
+	c, ok := replayCache[key]
+	replayMu.Unlock()
+	if ok {
 		return c[0].([]string), c[1].(string)
 	}
 	dir := filepath.Join(root, "replay", cfg.Dir)
@@ -835,7 +840,9 @@ func runReplayHarness(root, id string, cfg replayCfg, witness string) ([]string,
 		keep = append(keep, trimTail(string(out), 2000))
 	}
 	res := strings.Join(keep, "\n")
+	replayMu.Lock()
 	replayCache[key] = [2]interface{}{confirmed, res}
+	replayMu.Unlock()
 	return confirmed, res
 }
 
